@@ -28,6 +28,8 @@ def run(ctx, L, tier):
     c16.cache_and_cycle(ctx, L)      # cross-file state: results cached per absolute path only
     c16.dir_stack(ctx, L)
     c16.one_processor(ctx, L)
+    from . import shared_gen as _G
+    _G.generators_read_only(ctx, L)
     return sorted(set(o.rule for o in L.obligations))
 
 
